@@ -125,6 +125,14 @@ func Run(r *ev.Run) {
 		"position of a newly added item is only required to be after all existing items of its body",
 	)
 
+	// (c) first: it is cheap and independent of the budget of (a) and (b)
+	escLen := 4
+	if thorough {
+		escLen = 5
+	}
+	escapeProduct(r, escLen)
+	r.Rule += "; (c) every string over the escape-relevant alphabet up to escape_string_len written as attribute value (new and parsed file), tuple element, object key and block label, re-parsed natively and compared"
+
 	// (a)
 	runFiles(r, spaces, workers, fileDeadline)
 	for _, s := range [][]string{{"leadattr", "tmpl"}, {"nested", "trailhash", "obj"}, {"heredoc", "blkoneline"}} {
